@@ -24,6 +24,9 @@ import (
 type c11Root struct {
 	Text    string `json:"schema"`
 	OptKeys bool   `json:"keys_optional_by_default,omitempty"`
+	// Only, when set, lists the family types this root receives (roots may share base types while
+	// each has derived types of its own); empty = all types of the family.
+	Only []string `json:"only_types,omitempty"`
 }
 
 // c11Family: roots that share one set of type objects and one set of enum-rule objects.
@@ -150,6 +153,15 @@ func c11BuildRoot(f *c11Family, fo *c11FamObjs, i int) *njs.Schema {
 			_ = s.AddRule(r.Name, fo.rules[r.Name])
 		}
 		for _, t := range f.Types {
+			if only := f.Roots[i].Only; len(only) > 0 {
+				keep := false
+				for _, n := range only {
+					keep = keep || n == t.Name
+				}
+				if !keep {
+					continue
+				}
+			}
 			if ts := fo.types[t.Name]; ts != nil {
 				_ = s.AddType(t.Name, ts) // a failing AddType leaves the type out: same on fresh objects
 			}
